@@ -59,6 +59,7 @@ impl Write for Sink {
 
 
 pub fn run(case: &str) -> String {
+    crate::util::note_current(case);
     // one measurement per length
     let f: Vec<&str> = case.split(' ').collect();
     f[3].split(',').map(|l| run_one(f[0], f[1], f[2], l.parse().unwrap())).collect::<Vec<_>>().join(" ")
